@@ -465,8 +465,8 @@ def run(ctx):
     else:
         for c in diff.load_corpus("C03"):
             exprs.append(untuple(c["expr"]))
-        n = 500 if tier == "quick" else 25000
-        nm = 120 if tier == "quick" else 4000
+        n = 500 if tier == "quick" else 9000
+        nm = 120 if tier == "quick" else 1500
         # every functor at least a few times with simple operands
         simple = [("i", 7), ("i", -3), ("f", bits_of_f(0.5)), ("f", bits_of_f(-2.5)), ("i", 2 ** 70), ("app", "rdiv", [("i", 1), ("i", 3)]), ("i", 0)]
         for f in un:
